@@ -969,6 +969,10 @@ func ParseBranchStmt(p *ParserZH) *syntax.BranchStmt {
 			return stmt
 		}
 	}
+	// 如果 at the very end of the text: no condition, no block
+	if stmt.IfTrueExpr == nil || stmt.IfTrueBlock == nil {
+		panic(p.getInvalidSyntaxPeek())
+	}
 	return stmt
 }
 
